@@ -15,6 +15,7 @@ for p in props:
     r = subprocess.run([sys.executable, os.path.join(ROOT, "verif.py"), "check", p, "--tier", tier], env=env, stdout=subprocess.PIPE, stderr=subprocess.STDOUT, text=True)
     print(r.stdout.strip().splitlines()[-1])
 lines = {}   # (file, line) -> count ; only executable lines
+branches = {}
 funcs = {}
 for d in glob.glob(os.path.join(ROOT, "build", "*_cov-*")):
     gc = glob.glob(d + "/lib_*.gcda")
@@ -24,7 +25,7 @@ for d in glob.glob(os.path.join(ROOT, "build", "*_cov-*")):
     shutil.rmtree(out, ignore_errors=True)
     os.makedirs(out)
     for g in gc:
-        subprocess.run(["gcov", "-j", "-o", d, g], cwd=out, stdout=subprocess.DEVNULL, stderr=subprocess.DEVNULL)
+        subprocess.run(["gcov", "-j", "-b", "-o", d, g], cwd=out, stdout=subprocess.DEVNULL, stderr=subprocess.DEVNULL)
     for j in glob.glob(out + "/*.gcov.json.gz"):
         data = json.load(gzip.open(j))
         for f in data["files"]:
@@ -34,6 +35,11 @@ for d in glob.glob(os.path.join(ROOT, "build", "*_cov-*")):
             for ln in f["lines"]:
                 k = (name, ln["line_number"])
                 lines[k] = lines.get(k, 0) + ln["count"]
+                for bi, b in enumerate(ln.get("branches", [])):
+                    if b.get("throw"):
+                        continue
+                    kb = (name, ln["line_number"], bi)
+                    branches[kb] = branches.get(kb, 0) + b["count"]
             for fn in f["functions"]:
                 k = (name, fn["name"], fn["start_line"])
                 funcs[k] = funcs.get(k, 0) + fn["execution_count"]
@@ -65,4 +71,11 @@ print("TOTAL %d/%d (%.1f%%)" % (tot[1], tot[0], 100.0 * tot[1] / max(1, tot[0]))
 nf = sorted("%s:%s" % (k[0], k[1]) for k, c in funcs.items() if c == 0)
 print("functions never entered (%d):" % len(nf), ", ".join(nf))
 det.write("functions never entered: " + ", ".join(nf) + "\n")
+nb = sorted((k[0], k[1]) for k, c in branches.items() if c == 0 and lines.get((k[0], k[1]), 0) > 0)
+bl = {}
+for f, l in nb:
+    bl.setdefault(f, set()).add(l)
+print("branch outcomes never taken on executed lines: %d of %d" % (len(nb), len(branches)))
+for f in sorted(bl):
+    det.write("%-28s executed lines with a branch outcome never taken: %s\n" % (f, ranges(bl[f])))
 print("details:", det.name)
